@@ -1070,6 +1070,9 @@ func New(name name.Name, closeAfterIdle time.Duration, filesystemSettings *Files
 	swampEventCallback func(event *Event), swampInfoCallback func(info *Info), swampCloseCallback func(n name.Name),
 	metadataInterface metadata.Metadata) Swamp {
 
+	if verifhook.Enabled {
+		verifhook.Point("swamp.new", name.Get())
+	}
 	s := &swamp{
 		name:                name,
 		lastInteractionTime: time.Now().UnixNano(),
@@ -2324,6 +2327,9 @@ func (s *swamp) Close() {
 
 // sendClosedEvent sends a signal to the Manager because the swamp is successfully closed itself
 func (s *swamp) sendClosedEvent() {
+	if verifhook.Enabled {
+		verifhook.Point("swamp.closed", s.name.Get())
+	}
 	s.swampCloseCallback(s.name)
 }
 
